@@ -293,4 +293,158 @@ theorem agree_run (maxTTL t0 : Int) (hist : List Op) (k : Key) :
     Agree (run (Cache.init maxTTL t0) hist) hist.reverse k := by
   simpa using agree_run_from _ [] k (agree_init maxTTL t0 k) hist
 
+/-- The `Set` found by the scan is in the history and was a successful one. -/
+theorem lastLive_mem (k : Key) (v : Val) (ttl : Int) (el : Nat) :
+    ∀ (l : List Op) (acc : Nat), lastLive k l acc = some (v, ttl, el) →
+      Op.set k v ttl ∈ l ∧ 0 < ttl := by
+  intro l
+  induction l with
+  | nil => intro acc h; simp [lastLive] at h
+  | cons o l ih =>
+    intro acc h
+    cases o with
+    | set k' v'' ttl' =>
+      simp only [lastLive] at h
+      split at h
+      · rename_i hc
+        simp only [Option.some.injEq, Prod.mk.injEq] at h
+        obtain ⟨rfl, rfl, _⟩ := h
+        exact ⟨by simp [hc.1], hc.2⟩
+      · have := ih acc h
+        exact ⟨List.mem_cons_of_mem _ this.1, this.2⟩
+    | get k' => simp only [lastLive] at h; have := ih acc h; exact ⟨List.mem_cons_of_mem _ this.1, this.2⟩
+    | delete k' =>
+      simp only [lastLive] at h
+      split at h
+      · cases h
+      · have := ih acc h; exact ⟨List.mem_cons_of_mem _ this.1, this.2⟩
+    | cleanup => simp only [lastLive] at h; have := ih acc h; exact ⟨List.mem_cons_of_mem _ this.1, this.2⟩
+    | reset => simp [lastLive] at h
+    | advance d => simp only [lastLive] at h; have := ih _ h; exact ⟨List.mem_cons_of_mem _ this.1, this.2⟩
+
+/-! ### observational equivalence (for `cleanup_unobservable`) -/
+
+/-- The entry `Get k` would serve, if any. -/
+def live (c : Cache) (k : Key) : Option Entry :=
+  match mget c.m k with
+  | some e => if c.now < e.exp then some e else none
+  | none => none
+
+theorem getOf_eq_live (c : Cache) (k : Key) : getOf c k = (live c k).map (·.val) := by
+  unfold getOf live
+  cases mget c.m k with
+  | none => rfl
+  | some e =>
+    by_cases h : c.now < e.exp
+    · have h' : Src.getHitCmp.rel e.exp c.now := h
+      simp [h, h']
+    · have h' : ¬ Src.getHitCmp.rel e.exp c.now := h
+      simp [h, h']
+
+/-- Two caches no sequence of operations can tell apart: same clock, same configuration, same
+servable entries (stored-but-expired entries may differ). -/
+def ObsEq (c1 c2 : Cache) : Prop :=
+  c1.now = c2.now ∧ c1.maxTTL = c2.maxTTL ∧ ∀ k, live c1 k = live c2 k
+
+theorem live_cleanup (c : Cache) (k : Key) : live (doCleanup c) k = live c k := by
+  unfold live
+  have hm : mget (doCleanup c).m k
+      = if k ∈ mkeysWhere c.m (expiredAt c.now) then none else mget c.m k := by
+    simp [doCleanup, mget_delKeys]
+  rw [hm]
+  by_cases hmem : k ∈ mkeysWhere c.m (expiredAt c.now)
+  · rw [if_pos hmem]
+    obtain ⟨e, hg, hexp⟩ := (mem_mkeysWhere _ _ _).1 hmem
+    simp only [expiredAt, decide_eq_true_eq] at hexp
+    have hlt : e.exp < c.now := hexp
+    have : ¬ c.now < e.exp := by omega
+    simp [hg, this]
+  · rw [if_neg hmem]
+    rfl
+
+theorem live_reset (c : Cache) (k : Key) : live (doReset c) k = none := by
+  unfold live
+  have hm : mget (doReset c).m k = none := by
+    simp only [doReset, mget_delKeys]
+    split
+    · rfl
+    · rename_i hn
+      cases hg : mget c.m k with
+      | none => rfl
+      | some e => exact absurd ((mem_mkeysWhere _ _ _).2 ⟨e, hg, rfl⟩) hn
+  rw [hm]
+
+theorem live_advance (c : Cache) (d : Nat) (k : Key) :
+    live { c with now := c.now + d } k
+      = (live c k).bind (fun e => if c.now + d < e.exp then some e else none) := by
+  unfold live
+  cases mget c.m k with
+  | none => rfl
+  | some e =>
+    by_cases h1 : c.now + (d : Int) < e.exp
+    · have h2 : c.now < e.exp := by omega
+      simp [h1, h2]
+    · by_cases h2 : c.now < e.exp
+      · simp [h1, h2]
+      · simp [h1, h2]
+
+theorem live_set (c : Cache) (k' : Key) (v : Val) (ttl : Int) (k : Key) :
+    live (doSet c k' v ttl) k
+      = if k = k' then
+          (if c.now < c.now + durNs c.maxTTL ttl then some ⟨v, c.now + durNs c.maxTTL ttl⟩ else none)
+        else live c k := by
+  unfold live
+  simp only [doSet, mget_put]
+  by_cases hk : k = k'
+  · simp only [hk, if_true]; rfl
+  · simp only [hk, if_false]; rfl
+
+theorem live_delete (c : Cache) (k' k : Key) :
+    live { c with m := mdelKeys c.m [k'] } k = if k = k' then none else live c k := by
+  unfold live
+  simp only [mget_delKeys_single]
+  by_cases hk : k = k'
+  · simp [hk]
+  · simp [hk]
+
+theorem obsEq_step {c1 c2 : Cache} (h : ObsEq c1 c2) (o : Op) :
+    ObsEq (step c1 o).1 (step c2 o).1 ∧ (step c1 o).2 = (step c2 o).2 := by
+  obtain ⟨hn, hx, hl⟩ := h
+  cases o with
+  | set k v ttl =>
+    simp only [step]
+    by_cases hb : badTTL ttl
+    · simp only [if_pos hb]; exact ⟨⟨hn, hx, hl⟩, by first | rfl | trivial⟩
+    · simp only [if_neg hb]
+      refine ⟨⟨hn, hx, fun k' => ?_⟩, by first | rfl | trivial⟩
+      rw [live_set, live_set, hn, hx, hl k']
+  | get k =>
+    simp only [step]
+    refine ⟨⟨hn, hx, hl⟩, ?_⟩
+    rw [getOf_eq_live, getOf_eq_live, hl k]
+  | delete k =>
+    simp only [step]
+    refine ⟨⟨hn, hx, fun k' => ?_⟩, by first | rfl | trivial⟩
+    rw [live_delete, live_delete, hl k']
+  | cleanup =>
+    simp only [step]
+    refine ⟨⟨hn, hx, fun k' => ?_⟩, by first | rfl | trivial⟩
+    rw [live_cleanup, live_cleanup, hl k']
+  | reset =>
+    simp only [step]
+    refine ⟨⟨hn, hx, fun k' => ?_⟩, by first | rfl | trivial⟩
+    rw [live_reset, live_reset]
+  | advance d =>
+    simp only [step]
+    refine ⟨⟨by simp [hn], hx, fun k' => ?_⟩, by first | rfl | trivial⟩
+    rw [live_advance, live_advance, hl k', hn]
+
+theorem obsEq_outputs {c1 c2 : Cache} (h : ObsEq c1 c2) (ops : List Op) :
+    outputs c1 ops = outputs c2 ops := by
+  induction ops generalizing c1 c2 with
+  | nil => rfl
+  | cons o ops ih =>
+    obtain ⟨h1, h2⟩ := obsEq_step h o
+    simp only [outputs, h2, ih h1]
+
 end Kit.TTLCache
